@@ -390,7 +390,9 @@ class ShardsFamily(_Base):
             kind = ('state-merged-more-than-once' if got_int[0] > ref_int[0]
                     else 'state-lost')
           if obs['jumped']:
-            kind += ':clock-jump'
+            # re-submission of live tasks after the jump: a state merged twice,
+            # or twice in place of another one - one mechanism, one signature
+            kind = 'wrong-after-clock-jump'
           res.append(v('aggregate', f'{kind}:shards',
                        f"in-process {obs['ref_res']} != distributed {obs['res']}; "
                        f'fired {obs["fired"]} jumped={obs["jumped"]}'))
